@@ -719,6 +719,54 @@ func init() {
 				}
 			}
 		}
+		// the configured version set of a client: assigned only from the options' set (Dial, cluster dial) or as a
+		// clone of the set of the client being cloned
+		isClientField := func(fa *ssa.FieldAddr, field string) bool {
+			pt, ok := fa.X.Type().Underlying().(*types.Pointer)
+			if !ok {
+				return false
+			}
+			named, ok := pt.Elem().(*types.Named)
+			if !ok || named.Obj().Pkg() == nil || named.Obj().Pkg().Path() != mod+"/kmipclient" || named.Obj().Name() != "Client" {
+				return false
+			}
+			st, ok := named.Underlying().(*types.Struct)
+			return ok && st.Field(fa.Field).Name() == field
+		}
+		setSites := 0
+		for _, f := range funcs {
+			if f.Pkg != nil && (strings.HasSuffix(f.Pkg.Pkg.Path(), "/kmiptest") || strings.HasSuffix(f.Pkg.Pkg.Path(), "/examples")) {
+				continue
+			}
+			for _, b := range f.Blocks {
+				for _, ins := range b.Instrs {
+					st, ok := ins.(*ssa.Store)
+					if !ok {
+						continue
+					}
+					fa, ok := st.Addr.(*ssa.FieldAddr)
+					if !ok || !isClientField(fa, "supportedVersions") {
+						continue
+					}
+					setSites++
+					okv := fieldLoad(st.Val, "supportedVersions")
+					if c, isCall := st.Val.(*ssa.Call); isCall && !okv {
+						// slices.Clone(src.supportedVersions)
+						callee := c.Call.StaticCallee()
+						if callee != nil && callee.Origin() != nil {
+							callee = callee.Origin()
+						}
+						if callee != nil && callee.Pkg != nil && callee.Pkg.Pkg.Path() == "slices" && strings.HasPrefix(callee.Name(), "Clone") && len(c.Call.Args) == 1 {
+							okv = fieldLoad(c.Call.Args[0], "supportedVersions")
+						}
+					}
+					pos := l.prog.Fset.Position(st.Pos())
+					obs = append(obs, tableOb{name: fmt.Sprintf("C13#fieldframe:%s:versions", relFuncName(f)), ok: okv,
+						what: fmt.Sprintf("%s assigns Client.supportedVersions at %s:%d with a value that is neither the version set of the options nor a clone of the cloned client's set", relFuncName(f), filepath.Base(pos.Filename), pos.Line)})
+				}
+			}
+		}
+		obs = append(obs, tableOb{name: "C13#fieldframe:version-set-sites", ok: setSites >= 3, what: fmt.Sprintf("expected assignments of Client.supportedVersions not found (%d)", setSites)})
 		// vacuity: the known write sites must have been seen
 		obs = append(obs, tableOb{name: "C13#fieldframe:sites", ok: sites["negotiation"] >= 2 && sites["enforced-option"] >= 1 && sites["clone-copy"] >= 1,
 			what: fmt.Sprintf("expected assignments of Client.version not found (negotiation %d, enforced option %d, clone copy %d): the frame would be vacuous", sites["negotiation"], sites["enforced-option"], sites["clone-copy"])})
